@@ -483,6 +483,9 @@ def loss_case(draw, driver=None):
             "reconnect_limit": limit, "reconnect_interval": interval, "lat": draw(st.lists(st.floats(0, 0.999), max_size=12)),
             "tie": draw(st.booleans()), "drain_virtual": 60.0,
             "horizon": max([e["t"] for e in events] + [c["t0"] for c in callers]) + interval * 6 + 2}
+    sn = draw(st.sampled_from([None, None, "oneshot", "raising", "both"]))
+    if sn:
+        case["status_neighbours"] = sn      # other listeners to the connection status, registered before the monitor
     if draw(st.integers(0, 2)) == 0:
         case["glob"] = True       # the device path is a pattern: an unplugged gateway's node does not exist at all
         if draw(st.booleans()):
